@@ -19,6 +19,8 @@ func checkC13(c *Ctx) {
 	c13Trailing(c)
 	c13Keywords(c)
 	c13Validation(c)
+	c13NodeMakers(c)
+	c13EntryVerbatim(c)
 	c13LiteralMapping(c)
 	c13Precision(c)
 	c13ErrorReturns(c)
@@ -417,6 +419,42 @@ func c13Validation(c *Ctx) {
 		c.Check(!bad.IsValid(), "validated", "json."+name+":unmarshal", fn.Pos(), "every accepting path is validated",
 			"a node is returned at "+c.P.Position(bad)+" without the token having passed json.Unmarshal: text that is not valid JSON is accepted")
 	}
+}
+
+// R6b: who may construct: string and number nodes are only made by the validating functions.
+func c13NodeMakers(c *Ctx) {
+	c.Rule("R6b node.makers: in the JSON parser (json/parser.go) a *stringVal node is constructed only in parseString and a *numberVal node only in parseNumber, the two functions whose accepting paths pass encoding/json validation (R6): a fast path elsewhere that builds the node from the raw token bytes skips the decoding and validation that define what the literal denotes (escapes, invalid UTF-8 replaced by U+FFFD)")
+	makers := map[string]string{"stringVal": "parseString", "numberVal": "parseNumber"}
+	n := 0
+	for _, fn := range c.P.pkgFuncs("json") {
+		if !strings.HasPrefix(c.P.Position(fn.Pos()), "json/parser.go") {
+			continue
+		}
+		for _, b := range fn.Blocks {
+			for _, ins := range b.Instrs {
+				al, ok := ins.(*ssa.Alloc)
+				if !ok {
+					continue
+				}
+				for tn, maker := range makers {
+					if !isNamed(al.Type().(*types.Pointer).Elem(), modPath+"/json", tn) {
+						continue
+					}
+					n++
+					c.Sites++
+					c.Fn(FuncName(fn))
+					top := fn
+					for top.Parent() != nil {
+						top = top.Parent()
+					}
+					want := c.P.LookupFunc("json", maker)
+					c.Check(want != nil && top == want, "node.makers", fmt.Sprintf("%s:new[%s]", FuncName(fn), tn), al.Pos(), "made by "+maker,
+						"a "+tn+" node is built outside "+maker+": the token reaches the tree without the decoding and encoding/json validation of "+maker)
+				}
+			}
+		}
+	}
+	c.Floor("node.makers constructions", n, 2, "the stringVal of parseString and the numberVal of parseNumber")
 }
 
 // R3
@@ -879,4 +917,65 @@ func c13StringDelims(c *Ctx) {
 		}
 	}
 	c.Floor("string.delims cluster advances", n, 1, "the default arm of scanString")
+}
+
+// R10 entry.verbatim: what is scanned is the caller's text, whole.
+func c13EntryVerbatim(c *Ctx) {
+	c.Rule("R10 entry.verbatim: from every exported entry point of package json that takes the source as a []byte (Parse, ParseWithStartPos, ParseExpression, ParseExpressionWithStartPos) down to the call of the scanner, each function hands the buffer it was given to the next one unchanged (the parameter itself, not a slice, a trimmed copy or a buffer with a prefix removed): the text judged against the JSON grammar is the caller's text, byte for byte — a byte-order mark, padding or a wrapper stripped on the way in would make the package accept texts that are not JSON")
+	scanFn := c.P.LookupFunc("json", "scan")
+	if scanFn == nil {
+		c.CheckerFail("entry.verbatim", "anchor json.scan does not resolve")
+		return
+	}
+	isBytes := func(t types.Type) bool {
+		sl, ok := t.Underlying().(*types.Slice)
+		return ok && isByte(sl.Elem())
+	}
+	var work []*ssa.Function
+	for _, fn := range c.P.pkgFuncs("json") {
+		if fn.Parent() == nil && fn.Object() != nil && fn.Object().Exported() && fn.Signature.Recv() == nil && len(fn.Params) > 0 && isBytes(fn.Params[0].Type()) {
+			work = append(work, fn)
+		}
+	}
+	sort.Slice(work, func(i, j int) bool { return work[i].Pos() < work[j].Pos() })
+	seen := map[*ssa.Function]bool{}
+	n, reached := 0, false
+	for len(work) > 0 {
+		fn := work[0]
+		work = work[1:]
+		if seen[fn] || fn == scanFn {
+			continue
+		}
+		seen[fn] = true
+		c.Fn(FuncName(fn))
+		k := 0
+		for _, b := range fn.Blocks {
+			for _, ins := range b.Instrs {
+				call, ok := ins.(*ssa.Call)
+				if !ok {
+					continue
+				}
+				cal := call.Call.StaticCallee()
+				if cal == nil || fnPkg(cal) != fnPkg(fn) || len(cal.Params) == 0 || !isBytes(cal.Params[0].Type()) || len(call.Call.Args) == 0 || cal.Signature.Recv() != nil {
+					continue
+				}
+				n++
+				k++
+				c.Sites++
+				if cal == scanFn {
+					reached = true
+				}
+				key := fmt.Sprintf("%s:call[%s]", FuncName(fn), cal.Name())
+				if k > 1 {
+					key += fmt.Sprintf("#%d", k)
+				}
+				arg := call.Call.Args[0]
+				c.Check(arg == ssa.Value(fn.Params[0]) || isSpillOf(arg, fn.Params[0]), "entry.verbatim", key, call.Pos(), "the buffer is handed on unchanged",
+					"the source buffer handed to "+cal.Name()+" is not the one "+fn.Name()+" was given ("+pathName(arg)+"): part of the caller's text is not judged against the JSON grammar, so texts that are not JSON (a leading byte-order mark, …) can be accepted")
+				work = append(work, cal)
+			}
+		}
+	}
+	c.Floor("entry.verbatim hand-overs", n, 4, "Parse → ParseWithStartPos → parseFileContent → scan; ParseExpression → ParseExpressionWithStartPos → parseExpression → scan")
+	c.Check(reached, "entry.verbatim", "json:scan.reached", scanFn.Pos(), "the chain ends at the scanner", "no entry point reaches json.scan through functions that take the source buffer")
 }
